@@ -2,6 +2,9 @@ package main
 
 import (
 	"fmt"
+	"math/big"
+	"os"
+	"strings"
 
 	"github.com/zclconf/go-cty/cty"
 )
@@ -38,12 +41,32 @@ func numOperand(ctx *Ctx, o ValOpts) cty.Value {
 		if o.Unknown {
 			return genUnknown(ctx.R, cty.Number)
 		}
+	case 4, 5:
+		return mixedPrecNumber(ctx)
 	}
 	v := genNumber(ctx.R, o)
 	if o.Marks && ctx.R.Intn(8) == 0 {
 		v = v.Mark(markNames[ctx.R.Intn(3)])
 	}
 	return v
+}
+
+// mixedPrecNumber: values whose natural 64-bit bound has another precision than
+// the value itself (512-bit integers at the uint64/int64/2^53 limits), and small
+// fractions at 53 and 512 bits whose sum with them rounds at 64 bits.
+func mixedPrecNumber(ctx *Ctx) cty.Value {
+	switch ctx.R.Intn(3) {
+	case 0:
+		ints := []string{"18446744073709551615", "18446744073709551614", "9223372036854775807", "-9223372036854775808",
+			"9007199254740993", "18446744073709551616", "4611686018427387905"}
+		return cty.MustParseNumberVal(ints[ctx.R.Intn(len(ints))])
+	case 1:
+		fr := []float64{0.25, 0.5, -0.25, 0.75, 1.5, -0.5}
+		return cty.NumberFloatVal(fr[ctx.R.Intn(len(fr))])
+	default:
+		fr := []string{"0.25", "0.5", "-0.25", "0.125", "3.5"}
+		return cty.MustParseNumberVal(fr[ctx.R.Intn(len(fr))])
+	}
 }
 
 func boolOperand(ctx *Ctx, o ValOpts) cty.Value {
@@ -118,8 +141,19 @@ var opSpecs = []opSpec{
 		if ctx.R.Intn(5) == 0 {
 			t = genTy(ctx.R, 2, TyOpts{Dyn: true})
 		}
+		if ctx.R.Intn(3) == 0 {
+			return []cty.Value{a, a}
+		}
 		return []cty.Value{a, genVal(ctx.R, t, 2, o)}
 	}, func(a []cty.Value) cty.Value { return a[0].Equals(a[1]) }, nil},
+	{"notequal", 2, func(ctx *Ctx, o ValOpts) []cty.Value {
+		t := genTy(ctx.R, 2, TyOpts{Dyn: true})
+		a := genVal(ctx.R, t, 2, o)
+		if ctx.R.Intn(2) == 0 {
+			return []cty.Value{a, a}
+		}
+		return []cty.Value{a, genVal(ctx.R, t, 2, o)}
+	}, func(a []cty.Value) cty.Value { return a[0].NotEqual(a[1]) }, nil},
 	{"add", 2, func(ctx *Ctx, o ValOpts) []cty.Value { return []cty.Value{numOperand(ctx, o), numOperand(ctx, o)} },
 		func(a []cty.Value) cty.Value { return a[0].Add(a[1]) }, nil},
 	{"sub", 2, func(ctx *Ctx, o ValOpts) []cty.Value { return []cty.Value{numOperand(ctx, o), numOperand(ctx, o)} },
@@ -138,6 +172,10 @@ var opSpecs = []opSpec{
 		func(a []cty.Value) cty.Value { return a[0].LessThan(a[1]) }, nil},
 	{"gt", 2, func(ctx *Ctx, o ValOpts) []cty.Value { return []cty.Value{numOperand(ctx, o), numOperand(ctx, o)} },
 		func(a []cty.Value) cty.Value { return a[0].GreaterThan(a[1]) }, nil},
+	{"le", 2, func(ctx *Ctx, o ValOpts) []cty.Value { return []cty.Value{numOperand(ctx, o), numOperand(ctx, o)} },
+		func(a []cty.Value) cty.Value { return a[0].LessThanOrEqualTo(a[1]) }, nil},
+	{"ge", 2, func(ctx *Ctx, o ValOpts) []cty.Value { return []cty.Value{numOperand(ctx, o), numOperand(ctx, o)} },
+		func(a []cty.Value) cty.Value { return a[0].GreaterThanOrEqualTo(a[1]) }, nil},
 	{"not", 1, func(ctx *Ctx, o ValOpts) []cty.Value { return []cty.Value{boolOperand(ctx, o)} },
 		func(a []cty.Value) cty.Value { return a[0].Not() }, nil},
 	{"and", 2, func(ctx *Ctx, o ValOpts) []cty.Value { return []cty.Value{boolOperand(ctx, o), boolOperand(ctx, o)} },
@@ -182,6 +220,10 @@ var opSpecs = []opSpec{
 		if ctx.R.Intn(8) == 0 {
 			et = genTy(ctx.R, 1, TyOpts{Dyn: true})
 		}
+		if su, _ := s.Unmark(); su.Type().IsSetType() && su.IsKnown() && !su.IsNull() && su.LengthInt() > 0 && ctx.R.Intn(2) == 0 {
+			members := su.AsValueSlice()
+			return []cty.Value{s, members[ctx.R.Intn(len(members))]}
+		}
 		return []cty.Value{s, genVal(ctx.R, et, 2, o)}
 	}, func(a []cty.Value) cty.Value { return a[0].HasElement(a[1]) },
 		func(a []cty.Value) []string { return []string{hashOracle(a[1])} }},
@@ -203,16 +245,476 @@ func (s opSpec) wire(args []cty.Value) []string {
 	return w
 }
 
+// ---- the search predicate ------------------------------------------------
+
+type c01Pending struct {
+	kind    string // sound | known | includes
+	op      string
+	os, ws  []cty.Value
+	ro, rw  cty.Value
+	po, pw  bool // panicked
+	extra   string
+	wireKey string
+}
+
+func outcomeWire(v cty.Value, panicked bool) string {
+	if panicked {
+		return "panic"
+	}
+	return "(ok " + encVal(v) + ")"
+}
+
+func goLits(vs []cty.Value) string {
+	var parts []string
+	for _, v := range vs {
+		parts = append(parts, fmt.Sprintf("%#v", v))
+	}
+	return strings.Join(parts, ", ")
+}
+
+func outLit(v cty.Value, panicked bool) string {
+	if panicked {
+		return "panic"
+	}
+	return fmt.Sprintf("%#v", v)
+}
+
+func numPrecs(vs ...cty.Value) map[uint]bool {
+	m := map[uint]bool{}
+	var walk func(v cty.Value)
+	walk = func(v cty.Value) {
+		v, _ = v.Unmark()
+		if v.Type() != cty.Number || v.IsNull() {
+			return
+		}
+		if v.IsKnown() {
+			m[v.AsBigFloat().Prec()] = true
+			return
+		}
+		r := v.Range()
+		if lo, _ := r.NumberLowerBound(); lo.IsKnown() && !lo.AsBigFloat().IsInf() {
+			m[lo.AsBigFloat().Prec()] = true
+		}
+		if hi, _ := r.NumberUpperBound(); hi.IsKnown() && !hi.AsBigFloat().IsInf() {
+			m[hi.AsBigFloat().Prec()] = true
+		}
+	}
+	for _, v := range vs {
+		walk(v)
+	}
+	return m
+}
+
+// setWithPartlyUnknownMember: somewhere inside v there is a set one of whose
+// members is a known container holding an unknown
+func setWithPartlyUnknownMember(v cty.Value) bool {
+	v, _ = v.UnmarkDeep()
+	found := false
+	cty.Walk(v, func(_ cty.Path, x cty.Value) (bool, error) {
+		if x.IsKnown() && !x.IsNull() && x.Type().IsSetType() {
+			for it := x.ElementIterator(); it.Next(); {
+				_, m := it.Element()
+				if m.IsKnown() && !m.IsWhollyKnown() {
+					found = true
+				}
+			}
+		}
+		return true, nil
+	})
+	return found
+}
+
+func hasNestedDyn(v cty.Value) bool {
+	v, _ = v.UnmarkDeep()
+	return v.IsKnown() && !v.IsNull() && !v.HasWhollyKnownType()
+}
+
+// boundOtherPrec: the unknown a has an inclusive bound equal in exact value to the
+// known non-integer number v but of another precision (cty's own equality then
+// compares shortest decimal texts, which differ)
+func boundOtherPrec(a, v cty.Value) bool {
+	a, _ = a.Unmark()
+	v, _ = v.Unmark()
+	if a.IsKnown() || !v.IsKnown() || v.IsNull() || v.Type() != cty.Number || a.Type() != cty.Number {
+		return false
+	}
+	f := v.AsBigFloat()
+	if f.IsInt() {
+		return false
+	}
+	r := a.Range()
+	hit := func(b cty.Value, inc bool) bool {
+		if !b.IsKnown() || !inc {
+			return false
+		}
+		g := b.AsBigFloat()
+		return g.Cmp(f) == 0 && g.Prec() != f.Prec()
+	}
+	lo, loInc := r.NumberLowerBound()
+	hi, hiInc := r.NumberUpperBound()
+	return hit(lo, loInc) || hit(hi, hiInc)
+}
+
+// anyBoundOtherPrec: somewhere inside the operands there is an unknown number
+// with an inclusive bound, and a known non-integer number, equal in exact value
+// but of different precision
+func anyBoundOtherPrec(vs ...cty.Value) bool {
+	var bounds, nums []*big.Float
+	for _, v := range vs {
+		u, _ := v.UnmarkDeep()
+		cty.Walk(u, func(_ cty.Path, x cty.Value) (bool, error) {
+			if x.Type() != cty.Number || x.IsNull() {
+				return true, nil
+			}
+			if x.IsKnown() {
+				if f := x.AsBigFloat(); !f.IsInt() && !f.IsInf() {
+					nums = append(nums, f)
+				}
+				return true, nil
+			}
+			r := x.Range()
+			if lo, inc := r.NumberLowerBound(); inc && lo.IsKnown() && !lo.AsBigFloat().IsInf() {
+				bounds = append(bounds, lo.AsBigFloat())
+			}
+			if hi, inc := r.NumberUpperBound(); inc && hi.IsKnown() && !hi.AsBigFloat().IsInf() {
+				bounds = append(bounds, hi.AsBigFloat())
+			}
+			return true, nil
+		})
+	}
+	for _, b := range bounds {
+		for _, f := range nums {
+			if b.Cmp(f) == 0 && b.Prec() != f.Prec() {
+				return true
+			}
+		}
+	}
+	return false
+}
+
+// c01Sig names the root cause of a predicate failure as tightly as the
+// witness allows; anything unrecognised keeps the generic reason and the op.
+func c01Sig(p c01Pending, why string) string {
+	switch p.kind {
+	case "known":
+		anyNullDyn := false
+		for _, o := range p.os {
+			u, _ := o.Unmark()
+			if u.Type() == cty.DynamicPseudoType && u.IsNull() {
+				anyNullDyn = true
+			}
+		}
+		if why == "spontaneous-unknown" && anyNullDyn {
+			switch p.op {
+			case "getattr", "index", "hasindex":
+				return "null-of-dynamic-type-operand:" + p.op
+			}
+			return "null-of-dynamic-type-operand:typecheck"
+		}
+		if why == "null-result" && p.op == "mod" {
+			u, _ := p.os[0].Unmark()
+			if u.IsNull() {
+				return "null-modulo-zero"
+			}
+		}
+	case "includes":
+		if why == "includes-false-but-covered" && boundOtherPrec(p.os[0], p.os[1]) {
+			return "inclusive-bound-equal-in-value-other-precision"
+		}
+		return why
+	case "sound":
+		rwu := cty.NilVal
+		if !p.pw {
+			rwu, _ = p.rw.Unmark()
+		}
+		isFalse := rwu != cty.NilVal && rwu.IsKnown() && rwu.RawEquals(cty.False)
+		switch p.op {
+		case "haselement":
+			n, _ := p.ws[1].UnmarkDeep()
+			st, _ := p.ws[0].Unmark()
+			if why == "result-not-covered" && isFalse {
+				if n.IsKnown() && !n.IsWhollyKnown() {
+					return "haselement-false-for-partly-unknown-element"
+				}
+				if st.Type().IsSetType() && (st.Type().ElementType().HasDynamicTypes() || n.Type().HasDynamicTypes()) &&
+					n.Type() != cty.DynamicPseudoType && st.Type().ElementType() != cty.DynamicPseudoType {
+					return "haselement-false-for-type-with-placeholder-inside"
+				}
+			}
+		case "equals", "notequal", "le", "ge":
+			if why == "result-not-covered" {
+				a, _ := p.ws[0].UnmarkDeep()
+				b, _ := p.ws[1].UnmarkDeep()
+				isFalse := isFalse
+				if p.op == "notequal" {
+					isFalse = rwu != cty.NilVal && rwu.IsKnown() && rwu.RawEquals(cty.True)
+				}
+				if isFalse && (hasNestedDyn(a) || hasNestedDyn(b)) {
+					return "equals-false-with-dynamic-nested-in-known-value"
+				}
+				if isFalse && (setWithPartlyUnknownMember(a) || setWithPartlyUnknownMember(b)) {
+					return "equals-false-for-set-with-partly-unknown-member"
+				}
+				if isFalse && (boundOtherPrec(a, b) || boundOtherPrec(b, a) || anyBoundOtherPrec(a, b)) {
+					return "inclusive-bound-equal-in-value-other-precision"
+				}
+			}
+		case "add", "sub", "mul":
+			if why == "result-not-covered" && rwu != cty.NilVal && len(numPrecs(append(append([]cty.Value{}, p.os...), p.ws...)...)) > 1 {
+				return "range-bound-rounded-at-lower-precision"
+			}
+		case "mod":
+			u, _ := p.os[0].Unmark()
+			if why == "result-not-covered" && u.IsNull() && !p.po && p.ro.IsNull() {
+				return "null-modulo-zero"
+			}
+		case "length":
+			u, _ := p.ws[0].Unmark()
+			if why == "weakened-call-fails" && u.Type().IsObjectType() && !u.IsKnown() {
+				return "length-of-unknown-object-panics"
+			}
+		}
+	}
+	return why + ":" + p.op
+}
+
+func c01Site(p c01Pending, why string) string {
+	switch p.kind {
+	case "known":
+		if why == "null-result" {
+			return "never-null"
+		}
+		return "known-in-known-out"
+	case "includes":
+		return "includes-false-sound"
+	}
+	return "sound"
+}
+
+func c01What(p c01Pending, why string) string {
+	switch p.kind {
+	case "known":
+		if why == "null-result" {
+			return "the result of " + p.op + " is null"
+		}
+		return "all operands of " + p.op + " are wholly known but the result is not"
+	case "includes":
+		return "ValueRange.Includes answered " + p.extra + " against what the range admits"
+	}
+	if why == "weakened-call-fails" {
+		return "weakening the operands of " + p.op + " made a succeeding call fail"
+	}
+	return "the result of " + p.op + " on weakened operands does not admit the result on the original operands"
+}
+
+// c01Corpus: minimised witnesses of every recorded finding (and of repaired
+// defects), replayed first on every run so that each KNOWN-FINDING line is
+// reproduced deterministically and a repair shows up as a passing case.
+type c01Case struct {
+	op   string
+	o, w []cty.Value
+}
+
+func c01Corpus() []c01Case {
+	one := cty.NumberIntVal(1)
+	maxu := cty.MustParseNumberVal("18446744073709551615")
+	uMax := cty.UnknownVal(cty.Number).Refine().NumberRangeUpperBound(cty.NumberUIntVal(18446744073709551615), true).NewValue()
+	q := cty.NumberFloatVal(0.25)
+	setL := cty.SetVal([]cty.Value{cty.ListVal([]cty.Value{one})})
+	listT := cty.ListVal([]cty.Value{cty.True})
+	setT := cty.SetVal([]cty.Value{cty.TupleVal([]cty.Value{cty.True})})
+	f := cty.NumberFloatVal(1e-100)
+	g := cty.NumberVal(new(big.Float).SetPrec(512).Set(f.AsBigFloat()))
+	uAtF := cty.UnknownVal(cty.Number).Refine().NumberRangeLowerBound(g, true).NewValue()
+	nd := cty.NullVal(cty.DynamicPseudoType)
+	return []c01Case{
+		{"haselement", []cty.Value{setL, cty.ListVal([]cty.Value{one})}, []cty.Value{setL, cty.ListVal([]cty.Value{cty.UnknownVal(cty.Number)})}},
+		{"equals", []cty.Value{listT, listT}, []cty.Value{cty.ListVal([]cty.Value{cty.DynamicVal}), cty.UnknownVal(cty.List(cty.Bool))}},
+		{"equals", []cty.Value{cty.TupleVal([]cty.Value{cty.StringVal("a")}), cty.TupleVal([]cty.Value{cty.StringVal("a")})},
+			[]cty.Value{cty.TupleVal([]cty.Value{cty.DynamicVal}), cty.UnknownVal(cty.Tuple([]cty.Type{cty.String}))}},
+		{"equals", []cty.Value{setT, setT}, []cty.Value{setT, cty.SetVal([]cty.Value{cty.TupleVal([]cty.Value{cty.UnknownVal(cty.Bool)})})}},
+		{"haselement", []cty.Value{cty.SetVal([]cty.Value{cty.ListValEmpty(cty.Number)}), cty.ListValEmpty(cty.Number)},
+			[]cty.Value{cty.SetVal([]cty.Value{cty.UnknownVal(cty.List(cty.Number))}), cty.UnknownVal(cty.List(cty.DynamicPseudoType))}},
+		{"add", []cty.Value{maxu, q}, []cty.Value{uMax, q}},
+		{"length", []cty.Value{cty.EmptyObjectVal}, []cty.Value{cty.UnknownVal(cty.EmptyObject)}},
+		{"mod", []cty.Value{cty.NullVal(cty.Number), cty.NumberIntVal(0)}, []cty.Value{cty.NullVal(cty.Number), cty.UnknownVal(cty.Number)}},
+		{"equals", []cty.Value{f, f}, []cty.Value{f, uAtF}},
+		{"not", []cty.Value{nd}, []cty.Value{nd}},
+		{"getattr", []cty.Value{nd, cty.StringVal("a")}, []cty.Value{nd, cty.StringVal("a")}},
+		{"index", []cty.Value{nd, cty.StringVal("k")}, []cty.Value{nd, cty.StringVal("k")}},
+		{"hasindex", []cty.Value{nd, cty.StringVal("k")}, []cty.Value{nd, cty.StringVal("k")}},
+		// lt with an inclusive bound at the value (seeded change C01/m1), equals against a type constraint
+		// holding the placeholder inside (C01/m2): must pass on the unchanged tree
+		{"lt", []cty.Value{cty.NumberIntVal(5), cty.NumberIntVal(5)},
+			[]cty.Value{cty.UnknownVal(cty.Number).Refine().NumberRangeUpperBound(cty.NumberIntVal(5), true).NewValue(), cty.NumberIntVal(5)}},
+		{"notequal", []cty.Value{cty.ListVal([]cty.Value{cty.StringVal("a")}), cty.ListVal([]cty.Value{cty.StringVal("a")})},
+			[]cty.Value{cty.ListVal([]cty.Value{cty.StringVal("a")}), cty.UnknownVal(cty.List(cty.DynamicPseudoType))}},
+	}
+}
+
+func c01IncludesCorpus() [][2]cty.Value {
+	f := cty.NumberFloatVal(1e-100)
+	g := cty.NumberVal(new(big.Float).SetPrec(512).Set(f.AsBigFloat()))
+	return [][2]cty.Value{
+		{cty.UnknownVal(cty.Number).Refine().NumberRangeLowerBound(g, true).NewValue(), f},
+	}
+}
+
 func runC01(ctx *Ctx) {
-	o := ValOpts{Unknown: true, Null: true, Marks: true, DynVal: true, Small: true}
-	n := ctx.N(700, 20000)
+	// two streams of operand tuples: wholly known ones (the tuples of the
+	// property's quantifier: judged, and compared with the model), and tuples that
+	// already hold unknowns (compared with the model, converse clauses judged)
+	streams := []ValOpts{
+		{Null: true, Marks: true, Small: true},
+		{Unknown: true, Null: true, Marks: true, DynVal: true, Small: true},
+	}
+	n := ctx.N(1200, 7000)
+	perTuple := 2
+	var pend []c01Pending
+	var lines []string
+	push := func(p c01Pending, line string) {
+		pend = append(pend, p)
+		lines = append(lines, line)
+	}
+	specByName := map[string]opSpec{}
 	for _, s := range opSpecs {
-		for i := 0; i < n; i++ {
-			args := s.gen(ctx, o)
-			out, _, _ := opOut(func() cty.Value { return s.call(args) })
-			w := s.wire(args)
-			ctx.Add("op."+s.name, out, w...)
-			ctx.Eval(fmt.Sprint(s.name, w), true)
+		specByName[s.name] = s
+	}
+	// one concrete tuple: correspondence + converse clauses; its weakenings: correspondence + soundness
+	doTuple := func(s opSpec, args []cty.Value, weak [][]cty.Value, stats []*wkStats, judge bool) {
+		nOps := len(args)
+		if s.name == "getattr" {
+			nOps = 1
+		}
+		out, ro, po := opOut(func() cty.Value { return s.call(args) })
+		w := s.wire(args)
+		ctx.Add("op."+s.name, out, w...)
+		push(c01Pending{kind: "known", op: s.name, os: args[:nOps], ro: ro, po: po, wireKey: s.name + " " + strings.Join(w, " ")},
+			"judge.c01.known "+s.name+" "+strings.Join(w[:nOps], " ")+" "+outcomeWire(ro, po))
+		for k, ws := range weak {
+			outW, rw, pw := opOut(func() cty.Value { return s.call(ws) })
+			ww := s.wire(ws)
+			ctx.Add("op."+s.name, outW, ww...)
+			if !judge {
+				continue
+			}
+			positions := 1
+			if stats != nil {
+				st := stats[k]
+				positions = st.positions
+				for kind, c := range st.kinds {
+					ctx.res.Dist["weaken:"+kind] += c
+				}
+				if st.frontier {
+					ctx.Tag("weaken:frontier-nested-dynamic")
+				}
+			}
+			key := s.name + " " + strings.Join(w, " ") + " => " + strings.Join(ww, " ")
+			ctx.Eval(key, positions > 0 && !po)
+			verb := "judge.c01.sound2 "
+			if nOps == 1 {
+				verb = "judge.c01.sound1 "
+			}
+			push(c01Pending{kind: "sound", op: s.name, os: args, ws: ws, ro: ro, rw: rw, po: po, pw: pw, wireKey: key},
+				verb+strings.Join(w[:nOps], " ")+" "+strings.Join(ww[:nOps], " ")+" "+outcomeWire(ro, po)+" "+outcomeWire(rw, pw))
+		}
+	}
+	for _, c := range c01Corpus() {
+		ctx.Tag("corpus")
+		doTuple(specByName[c.op], c.o, [][]cty.Value{c.w}, nil, true)
+	}
+	for _, s := range opSpecs {
+		for i := 0; i < 2*n; i++ {
+			stream := i % 2
+			args := s.gen(ctx, streams[stream])
+			nOps := len(args)
+			if s.name == "getattr" {
+				nOps = 1
+			}
+			if ctx.R.Intn(40) == 0 {
+				// a null of the dynamic pseudo-type is a wholly known value too
+				args[ctx.R.Intn(nOps)] = cty.NullVal(cty.DynamicPseudoType)
+			}
+			var weak [][]cty.Value
+			var stats []*wkStats
+			for k := 0; k < perTuple; k++ {
+				wo := wkOpts{p: 0.22, dynTop: true, frontier: k == 1 && ctx.R.Intn(3) == 0}
+				ws, st := weakenTuple(ctx, args, func(i int) bool { return i >= nOps }, wo)
+				weak = append(weak, ws)
+				stats = append(stats, st)
+			}
+			doTuple(s, args, weak, stats, stream == 0)
+		}
+	}
+	// ValueRange.Includes against what the range admits
+	incCorpus := c01IncludesCorpus()
+	for i := 0; i < ctx.N(10000, 60000)+len(incCorpus); i++ {
+		var a, v cty.Value
+		if i < len(incCorpus) {
+			a, v = incCorpus[i][0], incCorpus[i][1]
+		} else {
+			t := genTy(ctx.R, 1, TyOpts{})
+			v = genVal(ctx.R, t, 2, ValOpts{Null: true, Small: true})
+			if ctx.R.Intn(2) == 0 {
+				a, _ = unknownTrueOf(ctx, v)
+			} else {
+				a = genUnknown(ctx.R, t)
+			}
+		}
+		if a.IsKnown() || v.IsMarked() {
+			continue
+		}
+		var ans cty.Value
+		if p, _ := try(func() { ans = a.Range().Includes(v) }); p {
+			continue
+		}
+		tri := "u"
+		if ans.IsKnown() {
+			tri = "f"
+			if ans.True() {
+				tri = "t"
+			}
+		}
+		ctx.Tag("includes:" + tri)
+		ctx.Eval("includes "+encVal(a)+" "+encVal(v), tri == "f")
+		push(c01Pending{kind: "includes", op: "includes", os: []cty.Value{a, v}, extra: tri, wireKey: encVal(a) + " " + encVal(v)},
+			"judge.c01.includes "+encVal(a)+" "+encVal(v)+" "+tri)
+	}
+	ans, err := drvBatch(lines)
+	if err != nil {
+		fmt.Fprintf(os.Stderr, "C01 judge: %v\n", err)
+		os.Exit(2)
+	}
+	for i, a := range ans {
+		p := pend[i]
+		switch {
+		case a == "pass":
+			ctx.Tag("judge:" + p.kind + ":pass")
+		case strings.HasPrefix(a, "skip "):
+			ctx.Tag("judge:" + p.kind + ":skip: " + strings.TrimPrefix(a, "skip "))
+			if strings.Contains(a, "do not cover") && os.Getenv("C01_DEBUG") != "" {
+				fmt.Fprintf(os.Stderr, "NOT-COVERING %s: %s  =>  %s\n   %s\n", p.op, goLits(p.os), goLits(p.ws), lines[i])
+			}
+		case strings.HasPrefix(a, "fail "):
+			why := strings.TrimPrefix(a, "fail ")
+			ctx.Tag("judge:" + p.kind + ":fail")
+			f := Failure{Site: c01Site(p, why), Sig: c01Sig(p, why), What: c01What(p, why), Input: p.wireKey}
+			switch p.kind {
+			case "sound":
+				f.GoLit = p.op + "(" + goLits(p.os) + ") vs weakened " + p.op + "(" + goLits(p.ws) + ")"
+				f.Outcome = outLit(p.ro, p.po) + " vs weakened " + outLit(p.rw, p.pw)
+			case "known":
+				f.GoLit = p.op + "(" + goLits(p.os) + ")"
+				f.Outcome = outLit(p.ro, p.po)
+			default:
+				f.GoLit = fmt.Sprintf("%#v.Range().Includes(%#v)", p.os[0], p.os[1])
+				f.Outcome = p.extra
+			}
+			ctx.Fail(f)
+		default:
+			fmt.Fprintf(os.Stderr, "C01 judge: unexpected driver answer %q to %q\n", a, lines[i])
+			os.Exit(2)
 		}
 	}
 }
+
